@@ -56,6 +56,16 @@ def oracle_search(rng, budget, tier):
         f = O.check_quality(C, q)
         if f:
             return [f], n
+    # parsing / encoding must not depend on earlier calls (caches, edited tables): the order-independence battery of C15, chord calls only
+    try:
+        from props import C15
+        for f in C15.sweep_module_state(rng, 1):
+            if f.get('function', '').startswith('chord.'):
+                f = dict(f)
+                f['relation'] = 'split / encode / encode_many results do not depend on earlier calls'
+                return [f], n + 1
+    except Exception:  # noqa: the battery is an extra, never a reason to crash the search
+        pass
     cases = core.corpus_cases(UNIT) + UNIT.exhaustive(tier) + UNIT.gen(rng, 4000 if tier == 'quick' else 40000)
     for c in cases:
         if time.time() - t0 > budget:
